@@ -121,7 +121,15 @@ def _creation_site(ctx, rep, fn, call, nm):
             return
         # the owner must be stored in the frame-local owner list inside the same block
         stored = False
-        for s in w.body:
+        # inside the with block, or in the statements that follow it in the same block (the local keeps the owner alive)
+        after = []
+        wp = pm.get(id(w))
+        for field in ('body', 'orelse', 'finalbody'):
+            blk = getattr(wp, field, None)
+            if isinstance(blk, list) and any(b is w for b in blk):
+                i = [k for k, b in enumerate(blk) if b is w][0]
+                after = blk[i + 1:]
+        for s in list(w.body) + list(after):
             for x in ast.walk(s):
                 if isinstance(x, ast.Call) and isinstance(x.func, ast.Attribute) and x.func.attr == 'append' and \
                         x.args and isinstance(x.args[0], ast.Name) and x.args[0].id == owner_var:
